@@ -242,7 +242,10 @@ impl SchemaChangeEvent {
                     SchemaChangeEventParseError::ArgumentCountParseError(err.into())
                 })?;
 
-                let mut argument_vector = Vec::with_capacity(number_of_arguments as usize);
+                // The count comes from the wire: do not preallocate more entries
+                // than the remaining bytes could possibly describe.
+                let mut argument_vector =
+                    Vec::with_capacity((number_of_arguments as usize).min(buf.len() / 2));
 
                 for _ in 0..number_of_arguments {
                     argument_vector.push(
@@ -267,7 +270,10 @@ impl SchemaChangeEvent {
                     SchemaChangeEventParseError::ArgumentCountParseError(err.into())
                 })?;
 
-                let mut argument_vector = Vec::with_capacity(number_of_arguments as usize);
+                // The count comes from the wire: do not preallocate more entries
+                // than the remaining bytes could possibly describe.
+                let mut argument_vector =
+                    Vec::with_capacity((number_of_arguments as usize).min(buf.len() / 2));
 
                 for _ in 0..number_of_arguments {
                     argument_vector.push(
